@@ -421,7 +421,12 @@ def _shrink_attrs(case, clause):
             if p["d"] is not None and p["a"] is None:
                 c = copy.deepcopy(cur)
                 c["per"][i]["a"], c["per"][i]["d"] = p["d"], None
-                cands.append(c)
+                if c["aform"] == "none":
+                    c["aform"] = "pos"
+                if not any(q["d"] is not None for q in c["per"]):
+                    c["dform"] = "none"
+                if not (c["dform"] == "pos" and c["aform"] != "pos"):
+                    cands.append(c)
         for i, k in enumerate(cur["keys"]):
             for simpler in ("class", "data-x"):
                 if k != simpler and simpler not in cur["keys"] and KEYS.index(simpler) < KEYS.index(k):
